@@ -39,10 +39,46 @@ reg("C15", ["c15_endian.c"],
     exhaustive={"quick": "all 16- and 24-bit values of every codec and swap",
                 "thorough": "all 16-, 24- and 32-bit values of every codec and swap"})
 
+reg("C19", ["c19_ring.c"],
+    rule="'closure': for capacities 1..4 and element types u8 (the library's octet_ring), u16, u64: starting from "
+         "init, every operation (put a, put b, get, clear, override on/off) is executed from every reached "
+         "(head, tail, override, data[], model queue) state until no new state appears; after each transition "
+         "size/empty/full and both iterators are compared with the queue model. 'history': seeded random histories "
+         "with unique element ids at capacities 1..64. A signature is a distinct reached (implementation state, "
+         "queue) pair or a (history unit, index); evaluations counts transitions/operations executed.",
+    exhaustive={"quick": "all reachable (implementation state, queue) pairs for capacities 1..4 over a two-value alphabet",
+                "thorough": "all reachable (implementation state, queue) pairs for capacities 1..4 over a two-value alphabet"})
+
+reg("C18", ["c18_bytebuf.c"],
+    rule="'closure': for sizes 1..5, starting from an empty buffer, every operation (add with every length 0..size+1 "
+         "and every content over {a1,b2}; consume and consume_at_most with every length 0..size+1; rewind, reset, "
+         "clear, repeat) is executed from every reached (offset, used, memory image) state until closure; "
+         "'setup': set/use/space on all argument combinations size 0..6 x used 0..7 x offset 0..8 x NULL; "
+         "'history': seeded random histories on sizes 1..300 with operand lengths biased to the boundary. A "
+         "signature is a distinct reached state, a set-up argument tuple or a history; evaluations counts "
+         "operations executed and compared with the list model.",
+    exhaustive={"quick": "all reachable states of buffers of size 1..5 under all operations with operand lengths 0..size+1",
+                "thorough": "all reachable states of buffers of size 1..5 under all operations with operand lengths 0..size+1"})
+
 SAN_NOTE = ("Trusted: gcc 12 ASan/UBSan runtime, the harness' reference model, the fork-per-unit runner. "
             "Assumes little-endian x86-64; decides only the executions listed in the evidence file.")
 
 MANIFEST_TEXT = {
+    "C18": dict(
+        technique="runtime monitoring: state-space closure by executing the implementation + random histories, list-model oracle, ASan/UBSan with exact-size poisoned operands",
+        text="Every reachable (offset, used, content) state of buffers of size 1..5 is produced by executing the real "
+             "operations with every operand length 0..size+1 and compared with a list model after each step (marks, "
+             "invariant, filled region, memory image where the statement fixes it, return value, no change on "
+             "refusal); long random histories extend this to sizes up to 300. Buffer memory and operands are "
+             "exact-size objects in a poisoned arena, so any access outside them is reported by ASan.",
+        note=SAN_NOTE),
+    "C19": dict(
+        technique="runtime monitoring: state-space closure by executing the implementation from every reached state + random histories, queue-model oracle, ASan/UBSan",
+        text="All reachable (implementation state, queue) pairs for capacities 1..4 are produced by running the real "
+             "put/get/clear/override code from every reached state and checked against a queue model including both "
+             "iterators; longer random histories with unique ids cover capacities up to 64 and three element types. "
+             "This is exploration by execution, not a model checker run on an abstraction.",
+        note=SAN_NOTE),
     "C15": dict(
         technique="runtime monitoring: exhaustive/structured execution under ASan/UBSan against a shift/mask reference, both swap implementations",
         text="Every one of the 111 functions is executed on complete value sets for widths up to 24 (32 in thorough) bits and on "
